@@ -2,7 +2,7 @@
     Only [ExtrOcamlBasic] is used: bool, option, unit, list, prod, sumbool, sumor map to the
     OCaml types; [N], [positive], [Z], [nat] stay the extracted inductive types. *)
 From Coq Require Import Extraction ExtrOcamlBasic.
-From Aby Require Import Base Vu64 Hash KeyTypes Consts Sizing Alloc Htx Store Iter Stats Layout Load Spec Bulk Db Db_proofs Probe World_refine Cache Cache_fault Utf8 Io Open Io_flat Names.
+From Aby Require Import Base Vu64 Hash KeyTypes Consts Sizing Alloc Htx Store Iter Stats Layout Load Spec Bulk Db Db_proofs Probe World_refine Cache Cache_fault Utf8 Strings Io Open Io_flat Names.
 Extraction Language OCaml.
 Set Extraction Output Directory ".".
 Extraction "model.ml" step world0 val_need key_need roundup key_cfg val_cfg hash_value
@@ -11,4 +11,4 @@ Extraction "model.ml" step world0 val_need key_need roundup key_cfg val_cfg hash
   store_at key_of_handle find_at shape_of moved load contents op_okb api_op
   Rabuf.cstep Rabuf.open_cap Rabuf.open_permille Rabuf.open_auto Rabuf.open_param Rabuf.close RabufF.cstep_f RabufF.close_f lossy
   Io.create Io.put Io.get Io.del Io.has Io.len Io.iter_run Io.stats_of Io.images Io.drain
-  Io.open_existing Io.reopen_st Io.st_images Io.clear_log Io.empty_st Io.get_file open_files evs_ok file_name.
+  Io.open_existing Io.reopen_st Io.st_images Io.clear_log Io.empty_st Io.get_file open_files evs_ok file_name sstep.
